@@ -57,6 +57,12 @@ func main() {
 	if len(os.Args) > 2 {
 		tier = os.Args[2]
 	}
+	if tier == "sub" {
+		if p.Sub == nil {
+			os.Exit(2)
+		}
+		os.Exit(p.Sub(os.Args[3:]))
+	}
 	if t := os.Getenv("VERIF_TIER"); t != "" && (tier == "quick" || tier == "thorough") && len(os.Args) <= 2 {
 		tier = t
 	}
